@@ -139,9 +139,13 @@ def tables_from_case(case):
         moves = 1.0 + case["y_vol"] * (2.0 * uniforms(seed, 10 + j, n) - 1.0)
         moves[0] = 1.0
         y[:, j] = case["y_p0"][j] * np.cumprod(moves)
+    for r0, ln, c in case.get("y_flat", []):
+        y[r0:r0 + ln, c] = y[r0, c]            # a run of rows repeating the same price (halted / forward-filled series)
     for r, c in case["y_nan"]:
         y[r, c] = np.nan
     Y = pd.DataFrame(y, index=index_of(case, case["y_days"]), columns=Y_COLS[:ny])
+    if case.get("y_dtype") == "float32":
+        Y = Y.astype("float32")                 # the same table as stored by many data vendors / parquet files
     # features
     m = len(case["x_days"])
     x = np.empty((m, nx))
@@ -158,7 +162,10 @@ def tables_from_case(case):
     rate = None
     if case["rate_days"] is not None:
         k = len(case["rate_days"])
-        rate = pd.Series(-0.02 + 0.22 * uniforms(seed, 40, k), index=index_of(case, case["rate_days"]), name=RATE_NAME)
+        vals = -0.02 + 0.22 * uniforms(seed, 40, k)
+        if case.get("rate_step"):
+            vals = vals[(np.arange(k) // case["rate_step"]) * case["rate_step"]]      # piecewise-constant (policy) rate
+        rate = pd.Series(vals, index=index_of(case, case["rate_days"]), name=RATE_NAME)
     return {"X": X, "Y": Y, "rate": rate}
 
 
@@ -283,9 +290,11 @@ def cases(draw, tier="quick", bias=None):
     n = len(y_days)
 
     # ---- X rows
-    x_mode = draw(st.sampled_from(["same", "same", "range", "range", "sparse", "sparse-range"]))
+    x_mode = draw(st.sampled_from(["same", "same", "range", "range", "sparse", "sparse-range", "calendar"]))
     if x_mode == "same":
         xd = list(yd)
+    elif x_mode == "calendar":
+        xd = list(range(span))          # a feature row on every calendar day, whatever the shape of the price table
     else:
         if "range" in x_mode:
             xs = draw(st.sampled_from([0, -1, -7, 3, 11])) if draw(st.booleans()) else draw(st.integers(-60, 20))
@@ -440,7 +449,27 @@ def cases(draw, tier="quick", bias=None):
         st.lists(st.integers(int(wl * 16), int(wh * 16)).map(lambda q: q / 16.0), min_size=ny, max_size=ny),
         min_size=1, max_size=5))
 
+    y_flat = []
+    if draw(st.integers(0, 2)) == 0:
+        r0 = draw(st.integers(0, max(0, n - 3)))
+        y_flat = [[r0, draw(st.integers(3, 14)), draw(st.integers(0, ny - 1))]]
+        if fold == "test-set" and folds and draw(st.booleans()):
+            # the run straddles the start of the fold the episode is played on
+            b0 = folds["test-set"][0]
+            at = next((i for i, d_ in enumerate(y_days) if d_ >= b0), None)
+            if at is not None:
+                y_flat[0][0] = max(0, at - draw(st.integers(1, 6)))
+    rate_step = draw(st.sampled_from([None, None, 3, 10, 1000]))
+    y_dtype = draw(st.sampled_from([None, None, None, None, "float32"]))
+    extra_keys = {}
+    if y_flat:
+        extra_keys["y_flat"] = y_flat
+    if rate_step and rate_days is not None:
+        extra_keys["rate_step"] = rate_step
+    if y_dtype:
+        extra_keys["y_dtype"] = y_dtype
     return {
+        **extra_keys,
         "cal": cal, "shape": shape, "intraday": intraday, "y0": base.isoformat(),
         "y_days": y_days, "x_days": x_days, "x_mode": x_mode,
         "rate_days": rate_days, "ny": ny, "nx": nx,
